@@ -224,14 +224,47 @@ where
         let (target, starts, tname) = (&tg[ti].0, &tg[ti].1, tg[ti].2);
         let rt = gt_ref(target);
         let start = &starts[si];
-        let bound = if eps >= 10.0 { 2 } else { ctx.tier.pick(1, 2) };
-        let res = explore(bound, ctx.tier.pick(600, 5000), |prefix| {
+        // a transition legitimately needs ~(period / eps) leapfrog steps; with momenta up to 1e3 that is tens of thousands for
+        // small step sizes: the 'does not terminate' verdict uses 2^12 steps for eps >= 0.3 and 2^17 below
+        let leaf_limit: usize = if eps >= 0.3 { 1 << 12 } else { 1 << 17 };
+        // deviation bound chosen from the number of choice points of the default execution so that the enumeration
+        // completes within the budget (no cap)
+        let planned = if eps >= 10.0 { 2 } else { ctx.tier.pick(1, 2) };
+        let budget: f64 = ctx.tier.pick(500.0, 2500.0);
+        let n_points = {
             let mut chain = chain_with_eps::<T, B>(target.clone(), start, eps);
-            let (r, rec) = record_with(Script { prefix: prefix.to_vec(), momenta: moms2.clone(), f32_scalar: f32b, inject: true, keep: Some(&["nuts.end", "nuts.leaf"]), max_leaves: 1 << 12, init_momentum: None }, || chain.step());
+            let (_, rec) = record_with(Script { prefix: vec![], momenta: moms2.clone(), f32_scalar: f32b, inject: true, keep: Some(&["nuts.end"]), max_leaves: leaf_limit, init_momentum: None }, || chain.step());
+            rec.decisions.iter().map(|d| (d.n - 1) as f64).sum::<f64>()
+        };
+        let mut bound = planned;
+        while bound > 0 {
+            let est = if bound == 1 { 1.0 + n_points } else { 1.0 + n_points + n_points * n_points / 2.0 };
+            if est * 1.5 <= budget {
+                break;
+            }
+            bound -= 1;
+        }
+        let res = explore(bound, 100000, |prefix| {
+            let mut chain = chain_with_eps::<T, B>(target.clone(), start, eps);
+            let (r, rec) = record_with(Script { prefix: prefix.to_vec(), momenta: moms2.clone(), f32_scalar: f32b, inject: true, keep: Some(&["nuts.end", "nuts.leaf"]), max_leaves: leaf_limit, init_momentum: None }, || chain.step());
             let case = json!({"sampler": "NUTS", "backend": name, "target": tname, "start": start, "eps": jf(eps), "script": prefix});
             ctx.transitions(1);
             match r {
-                Err(m) if m.contains("runaway tree") => ctx.violation(Violation::new("C14:hang(NUTS)", format!("NUTS transition on {tname} with step size {eps} does not terminate within 2^12 leapfrog steps"), case)),
+                Err(m) if m.contains("runaway tree") => {
+                    // The property's 'does not hang' clause is about invalid candidates. A tree whose every leaf is a valid,
+                    // non-divergent state (e.g. the funnel's escaping orbit under a 1e3 momentum) is merely long - Algorithm 6
+                    // has no depth limit - and is reported as a cut-off. A tree that keeps growing AFTER a leaf with a NaN /
+                    // non-finite joint or a failed divergence test is the hang the property excludes.
+                    let leaves: Vec<&Vec<f64>> = rec.events.iter().filter(|(l, _)| l == "nuts.leaf").map(|(_, e)| e).collect();
+                    let first_bad = leaves.iter().position(|e| !e[2].is_finite() || e[4] == 0.0);
+                    match first_bad {
+                        Some(i) if i + 2 < leaves.len() => ctx.violation(Violation::new("C14:hang(NUTS)", format!("NUTS transition on {tname} with step size {eps} keeps doubling after the invalid leaf #{i} (joint {}, s' {}) and does not terminate within {leaf_limit} leapfrog steps", leaves[i][2], leaves[i][4]), case)),
+                        _ => {
+                            ctx.outcome("NUTS: cut off (all leaves valid, tree longer than the leaf limit)", 1);
+                            ctx.cap(&format!("NUTS transition {tname} eps={eps} script {prefix:?}: more than {leaf_limit} valid leapfrog steps, cut off"));
+                        }
+                    }
+                }
                 Err(m) => ctx.violation(Violation::new("C14:panic(NUTS)", format!("NUTSChain::step panicked on {tname} eps={eps}: {m}"), case)),
                 Ok(()) => {
                     let end = v(&chain.position);
